@@ -201,9 +201,16 @@ def filterNeighbors (d : Nat) (chunks : List Chunk) (e1 : Nat) (e1n : List Nat) 
         | none => none
         | some r => some (if d ≤ commonCount e1n e2n then e2 :: r else r)
 
+/-- Sorted insertion (ascending). -/
+def insertNat (x : Nat) : List Nat → List Nat
+  | [] => [x]
+  | y :: ys => if x ≤ y then x :: y :: ys else y :: insertNat x ys
+
 /-- `sort_unstable` on `usize` keys (std contract: the sorted permutation; equal
-keys are indistinguishable). -/
-def sortNat (l : List Nat) : List Nat := l.mergeSort (fun a b => decide (a ≤ b))
+keys are indistinguishable, so the result is unique): insertion sort. -/
+def sortNat : List Nat → List Nat
+  | [] => []
+  | x :: xs => insertNat x (sortNat xs)
 
 /-- `Vec::dedup`: removes consecutive repeats. -/
 def dedup : List Nat → List Nat
